@@ -32,7 +32,7 @@ META = {
         assumptions=["sources yield non-decreasing times and derived events are stamped >= now (the statement's premise)",
                      "handlers are observed through their own entry/exit records; the dispatcher is not instrumented"],
         probes_expected=["pool_saturated", "cross_source_tie", "derived_event", "handler_raised", "dup_subscription",
-                         "dup_subscription_bound_method"],
+                         "dup_subscription_bound_method", "handler_raised_synchronously"],
         states_measure="distinct (events in flight, handlers in flight, pool size) triples at handler entry"),
     "C13": dict(
         engine="dispsim", level="exploration", components=_COMPONENTS,
@@ -226,12 +226,29 @@ def run(tape, prop, tier):
             async def on_event(self, ev):
                 await self._fn(ev)
 
+        def sync_raiser(hid, h):
+            # a plain callable that returns an awaitable is a legal handler; this one validates its input first and may
+            # raise before there is anything to await
+            def call(ev):
+                b = beh[(hid * 31 + ev.eid * 7) % K]
+                if b["boom"] and not b["sleeps"]:
+                    rec("enter", "src", hid, ev.eid, ev.when, d.now())
+                    rec("exit", "src", hid, ev.eid, ev.when, d.now())
+                    res.probes["handler_raised_synchronously"] += 1
+                    res.faults["handler_exception"] += 1
+                    raise KeyError("validating wrapper boom")
+                return h(ev)
+            return call
+
         hid = 0
         for i, s in enumerate(srcs + ders):
             for (dup,) in nh[i]:
                 hid += 1
                 h = mk_handler(hid, "src")
                 subs[i].append(hid)
+                if hid % 5 == 3:
+                    d.subscribe(s, sync_raiser(hid, h))
+                    continue
                 if hid % 2 == 0:
                     st_ = Strategy(h)
                     d.subscribe(s, st_.on_event)
